@@ -1,11 +1,148 @@
-"""C06 plug-in for libhost_child (T3): the emitted ASYNC client over the emitted asyncio REST transport
-(`Async<Service>RestTransport`, generated when `rest_async_io_enabled` is set) against the loopback HTTP server.
-Same call format and result format as `rest_session` (libhost_rpc.op_rest_session).  Runs INSIDE the child.
+"""C06 plug-in for libhost_child (T3).  Runs INSIDE the child.
 
-op: {"op": "c06_rest_async_session", "client": "mod:AsyncClient", "transport": "mod:AsyncRestTransport", "calls": [call…]}
+`c06_session`: ONE emitted client (sync gRPC | asyncio gRPC | REST | asyncio REST) against one loopback server, a store
+of CALLER-OWNED metadata objects (Python lists / tuples) that live for the whole session — passing object i twice
+passes the SAME Python object twice — and a list of calls.  After every call the object that was passed is read back.
+
+op: {"op": "c06_session", "kind": "grpc"|"grpc_asyncio"|"rest"|"rest_asyncio", "client": "mod:Cls", "transport": "mod:Cls",
+     "objects": [{"kind": "list"|"tuple", "pairs": [[k, v], …]}, …],
+     "calls": [call of libhost_rpc.build_args (request, mode, consume, stream_requests …) + {"metadata_obj": i | null}]}
+     (`metadata_obj` null: the call passes no `metadata=` at all; `call_kwargs.metadata` is not used)
+result: {"calls": [{"ok": … | "raised": …, "server": [records],
+                    "metadata_after": null | {"type": "list"|"tuple"|…, "pairs": [[k, v], …], "same_object": bool}}]}
+
+`c06_rest_async_session` (older): the async client over the asyncio REST transport, call format of `rest_session`.
 """
 import asyncio, traceback
 import libhost_rpc as R
+
+
+def _objects(o):
+    out = []
+    for ob in o.get("objects") or []:
+        pairs = [tuple(p) for p in ob["pairs"]]
+        out.append(tuple(pairs) if ob["kind"] == "tuple" else list(pairs))
+    return out
+
+
+def _args(call, objs):
+    c = dict(call)
+    ck = dict(c.get("call_kwargs") or {})
+    ck.pop("metadata", None)
+    c["call_kwargs"] = ck
+    args, kw = R.build_args(c)
+    passed = None
+    if call.get("metadata_obj") is not None:
+        passed = objs[call["metadata_obj"]]
+        kw["metadata"] = passed
+    return args, kw, passed
+
+
+def _after(call, objs, passed):
+    if passed is None:
+        return None
+    now = objs[call["metadata_obj"]]
+    try:
+        pairs = [[str(k), v if isinstance(v, str) else repr(v)] for k, v in passed]
+    except BaseException as e:  # noqa
+        pairs = [["<unreadable>", R.exc_name(e)]]
+    return {"type": type(passed).__name__, "pairs": pairs, "same_object": now is passed}
+
+
+def _sync_calls(o, srv, client, results):
+    objs = _objects(o)
+    for call in o["calls"]:
+        start = len(srv.log)
+        passed = None
+        try:
+            args, kw, passed = _args(call, objs)
+            ret = getattr(client, call["method"])(*args, **kw)
+            res = {"ok": R.consume_sync(ret, call.get("consume", "value"))}
+        except BaseException as e:  # noqa
+            res = {"raised": R.exc_name(e), "msg": str(e)[:300], "trace": traceback.format_exc()[-600:]}
+        res["server"] = list(srv.log[start:])
+        res["metadata_after"] = _after(call, objs, passed)
+        results.append(res)
+
+
+async def _async_calls(o, srv, client, results):
+    objs = _objects(o)
+    for call in o["calls"]:
+        start = len(srv.log)
+        passed = None
+        try:
+            args, kw, passed = _args(call, objs)
+            if "requests" in kw:
+                items = list(kw["requests"])
+
+                async def agen(items=items):
+                    for it in items:
+                        yield it
+                kw["requests"] = agen()
+            ret = getattr(client, call["method"])(*args, **kw)
+            for _ in range(3):          # client-streaming async methods need a double await
+                if asyncio.iscoroutine(ret) or hasattr(ret, "__await__"):
+                    ret = await ret
+            res = {"ok": await R.consume_async(ret, call.get("consume", "value"))}
+        except BaseException as e:  # noqa
+            res = {"raised": R.exc_name(e), "msg": str(e)[:300], "trace": traceback.format_exc()[-600:]}
+        res["server"] = list(srv.log[start:])
+        res["metadata_after"] = _after(call, objs, passed)
+        results.append(res)
+
+
+def op_c06_session(o):
+    kind = o["kind"]
+    results = []
+    if kind == "grpc":
+        import grpc
+        srv = R.GrpcLoopback(None)
+        try:
+            ch = grpc.insecure_channel(f"127.0.0.1:{srv.port}")
+            client = R.locate(o["client"])(transport=R.locate(o["transport"])(channel=ch))
+            _sync_calls(o, srv, client, results)
+            ch.close()
+        finally:
+            srv.stop()
+    elif kind == "grpc_asyncio":
+        import grpc
+        srv = R.GrpcLoopback(None)
+        try:
+            async def main():
+                ch = grpc.aio.insecure_channel(f"127.0.0.1:{srv.port}")
+                client = R.locate(o["client"])(transport=R.locate(o["transport"])(channel=ch))
+                await _async_calls(o, srv, client, results)
+                await ch.close()
+            asyncio.run(main())
+        finally:
+            srv.stop()
+    elif kind == "rest":
+        from google.auth.credentials import AnonymousCredentials
+        srv = R.HttpLoopback(None)
+        try:
+            transport = R.locate(o["transport"])(host=f"127.0.0.1:{srv.port}", url_scheme="http", credentials=AnonymousCredentials())
+            _sync_calls(o, srv, R.locate(o["client"])(transport=transport), results)
+        finally:
+            srv.stop()
+    elif kind == "rest_asyncio":
+        from google.auth.aio.credentials import AnonymousCredentials
+        srv = R.HttpLoopback(None)
+        try:
+            async def main():
+                transport = R.locate(o["transport"])(host=f"127.0.0.1:{srv.port}", url_scheme="http", credentials=AnonymousCredentials())
+                try:
+                    await _async_calls(o, srv, R.locate(o["client"])(transport=transport), results)
+                finally:
+                    try:
+                        await transport.close()
+                    except BaseException:  # noqa
+                        pass
+            asyncio.run(main())
+        finally:
+            srv.stop()
+    else:
+        raise ValueError(kind)
+    return {"calls": results}
 
 
 def op_c06_rest_async_session(o):
@@ -42,4 +179,4 @@ def op_c06_rest_async_session(o):
     return {"calls": results}
 
 
-OPS = {"c06_rest_async_session": op_c06_rest_async_session}
+OPS = {"c06_session": op_c06_session, "c06_rest_async_session": op_c06_rest_async_session}
